@@ -391,3 +391,58 @@ macro_rules! w_un {
 }
 w_un!(Neg, neg, 40);
 w_un!(Not, not, 41);
+
+// ---------------------------------------------------------------------------------------------
+// C11 (Default): symbolic seeds read by user default expressions, conversion-observing types
+// ---------------------------------------------------------------------------------------------
+pub static mut SEEDS: [u8; 4] = [0; 4];
+pub fn set_seeds<S: Src>(s: &mut S) {
+    unsafe {
+        SEEDS = [s.u8(), s.u8(), s.u8(), s.u8()];
+    }
+}
+pub fn sd(i: usize) -> u8 {
+    unsafe { SEEDS[i] }
+}
+pub const K0: u8 = 9;
+pub struct Cfg;
+impl Cfg {
+    pub const K: u8 = 11;
+}
+/// `via` tells how the value was produced: 0 = built directly, 1 = From<u8>, 2 = From<&str>, 9 = Default
+#[derive(Debug, Clone, Copy, PartialEq, Eq)]
+pub struct M {
+    pub v: u8,
+    pub via: u8,
+}
+impl M {
+    pub const fn direct(v: u8) -> M {
+        M { v, via: 0 }
+    }
+}
+pub const KM: M = M::direct(5);
+impl From<u8> for M {
+    fn from(v: u8) -> M {
+        M { v, via: 1 }
+    }
+}
+impl<'a> From<&'a str> for M {
+    fn from(s: &'a str) -> M {
+        M { v: s.len() as u8, via: 2 }
+    }
+}
+impl Default for M {
+    fn default() -> M {
+        M { v: 0xD7, via: 9 }
+    }
+}
+#[derive(Debug, Clone, Copy, PartialEq, Eq)]
+pub enum Mode {
+    Slow,
+    Fast,
+}
+impl Default for Mode {
+    fn default() -> Mode {
+        Mode::Slow
+    }
+}
